@@ -398,7 +398,12 @@ class SegEval:
             hi = None if b == NONE else b
             if hi is not None and is_num(hi) and hi[1] < 0:
                 hi = T_add(v.length(), hi)
+            if lo is not None and is_num(lo) and lo[1] < 0:
+                lo = T_add(v.length(), lo)
             return self.slice(v, lo, hi)
+        if name == "flip1":
+            v = self.ev(args[0])
+            return Vec(list(reversed(v.segs))) if isinstance(v, Vec) else v
         if name in ("hstack", "array"):
             items = args[0][1] if (name == "array" and args and args[0][0] == "tuple") else args
             return self.cat([self.ev(x) for x in items])
